@@ -9,6 +9,7 @@ import RbV.Lemmas.QGramIndex
 import RbV.Lemmas.QGramExactModel
 import RbV.Lemmas.KChainFwd
 import RbV.Lemmas.LcskppFinal
+import RbV.Lemmas.SdpkppUnion
 /-!
 # C19 — k-mer / q-gram indexing and sparse chaining are exact
 
@@ -489,7 +490,62 @@ example : ∃ r, lcskpp [(0, 0), (1, 1), (2, 2), (5, 5), (6, 9)] 3 = .ok r ∧ r
     (by simp [lexLt])
   exact ⟨r, h1, by rw [h4]; decide, h2⟩
 
+/-- the chains returned by the `lcskpp` model list their indices in strictly ascending order (what
+`sdpkpp_union_lcskpp_path` relies on when it binary-searches the path) -/
+theorem lcskpp_model_path_ascending (ms : List M) (k : Nat) (hk : 0 < k) (hs : ms.Pairwise lexLt) :
+    ∃ r, lcskpp ms k = .ok r ∧ r.path.Pairwise (· < ·) :=
+  let ⟨r, h1, _, _, _, _, h6⟩ := lcskpp_model_ok hk hs
+  ⟨r, h1, h6⟩
+
 end lcskpp_model
+
+/-! ## `sdpkpp` and `sdpkpp_union_lcskpp_path` (mirror models `RbV/Model/Sdpkpp.lean`) -/
+section sdpkpp_model
+open RbV.Model.Lcskpp RbV.Model.Sdpkpp RbV.Lemmas.Lcskpp RbV.Lemmas.Sdpkpp
+
+/-- **the mirror model of `sdpkpp` returns a valid chain** — for every strictly sorted match list, every `k ≥ 1` and all
+scoring parameters (`match_score`, magnitudes of `gap_open` / `gap_extend`): no assertion failure, the traceback ends by
+its own condition, every index is in range and every step is a diagonal continuation by one or a start at least `k`
+later in both sequences; the chain is non-empty when there are matches and lists its indices in ascending order.
+(Validity only — the property does not fix the gap-penalised score.) -/
+theorem sdpkpp_model_valid (ms : List M) (k msc gapOpen gapExtend : Nat) (hk : 0 < k) (hs : ms.Pairwise lexLt) :
+    ∃ r, sdpkpp ms k msc gapOpen gapExtend = .ok r ∧ validChain ms k r.path = true ∧ (ms ≠ [] → r.path ≠ []) ∧
+      r.path.Pairwise (· < ·) :=
+  sdpkpp_model_ok msc gapOpen gapExtend hk hs
+
+/-- what the Fenwick tree over `PrevPtr` records needs from C18: the record maximum is associative, commutative and has
+the default record as identity (so a query is the maximum of the updates of the prefix) -/
+theorem prevptr_max_is_monoid :
+    (∀ a b c : PrevPtr, maxPP (maxPP a b) c = maxPP a (maxPP b c)) ∧ (∀ a b : PrevPtr, maxPP a b = maxPP b a) ∧
+    (∀ a : PrevPtr, maxPP dfltPP a = a) :=
+  ⟨maxPP_assoc, maxPP_comm, maxPP_id⟩
+
+/-- **splicing is sound**: for any two valid chains, replacing the part of the first between the first and the last
+match of the second (looked up in the first; nothing cut on the side where the lookup fails) by the second chain gives a
+valid chain -/
+theorem union_of_valid_chains_valid (ms : List M) (k : Nat) (lp sp : List Nat) (hl : validChain ms k lp = true)
+    (hsp : validChain ms k sp = true) (first last : Nat) (hf : sp.head? = some first) (hla : sp.getLast? = some last) :
+    validChain ms k (lp.take ((findIdx first 0 lp).getD 0) ++ sp ++
+      lp.drop (match findIdx last 0 lp with | some ind => ind + 1 | none => lp.length)) = true :=
+  union_valid ms k lp sp hl hsp first last hf hla
+
+/-- **the mirror model of `sdpkpp_union_lcskpp_path` returns a valid chain** for every strictly sorted match list,
+`k ≥ 1` and all scoring parameters -/
+theorem union_model_valid (ms : List M) (k msc gapOpen gapExtend : Nat) (hk : 0 < k) (hs : ms.Pairwise lexLt) :
+    ∃ u, unionPath ms k msc gapOpen gapExtend = .ok u ∧ validChain ms k u = true :=
+  unionPath_model_ok msc gapOpen gapExtend hk hs
+
+example : ∃ r, sdpkpp [(0, 0), (1, 1), (2, 2), (5, 5), (6, 9)] 3 1 2 1 = .ok r ∧
+    validChain [(0, 0), (1, 1), (2, 2), (5, 5), (6, 9)] 3 r.path = true ∧ r.path ≠ [] := by
+  obtain ⟨r, h1, h2, h3, _⟩ := sdpkpp_model_valid [(0, 0), (1, 1), (2, 2), (5, 5), (6, 9)] 3 1 2 1 (by decide) (by simp [lexLt])
+  exact ⟨r, h1, h2, h3 (by simp)⟩
+
+example : validChain [(0, 0), (1, 1), (2, 2), (5, 5), (6, 9)] 3 [0, 1, 4] = true ∧
+    validChain [(0, 0), (1, 1), (2, 2), (5, 5), (6, 9)] 3 [1, 2, 3] = true ∧
+    ([0, 1, 4].take ((findIdx 1 0 [0, 1, 4]).getD 0) ++ [1, 2, 3] ++
+      [0, 1, 4].drop (match findIdx 3 0 [0, 1, 4] with | some ind => ind + 1 | none => 3)) = [0, 1, 2, 3] := by decide
+
+end sdpkpp_model
 
 /-- the score counts `k` for the first match and every non-overlapping step and `1` for a diagonal continuation -/
 theorem score_counts (k : Nat) (a b : M) (r : List M) :
